@@ -388,6 +388,12 @@ static void op_handshake(worker_t *w, lc_t *lc, int mode)
         }
         if (S.ssl->sessionIdLen > 0) o->srv_sid = H(S.ssl->sessionId, S.ssl->sessionIdLen);
 
+        /* a session resumed from the shared cache now and then stays open for a while ("application think time") before it
+           moves data or fails: other resumptions of the same cache entry - by its owner or by a borrower - then overlap it,
+           and the entry is referenced by several sessions when one of them hits a fatal error or closes */
+        if (o->resumed && lc->lt != LT_PSK13 && lc->lt != LT_TK12 && vf_below(&w->rng, 3) == 0) {
+            struct timespec ts = { 0, 300000 + (long) (vf_next(&w->rng) % 2500000) }; w->sleeps++; nanosleep(&ts, NULL);
+        }
         /* data both ways; in M_ALERT_APP the client's record is damaged in flight */
         int l1 = 1 + (int) vf_below(&w->rng, vf_below(&w->rng, 8) == 0 ? 16000 : 1500);
         int l2 = 1 + (int) vf_below(&w->rng, vf_below(&w->rng, 8) == 0 ? 16000 : 1500);
@@ -514,7 +520,7 @@ static void op_borrow(worker_t *w)
         ok = 1;
     }
     pthread_mutex_unlock(&b->mu);
-    if (ok) op_handshake(w, &lc, vf_below(&w->rng, 10) == 0 ? M_ALERT_APP : M_NORMAL);
+    if (ok) op_handshake(w, &lc, vf_below(&w->rng, 4) == 0 ? M_ALERT_APP : M_NORMAL);
     matrixSslDeleteSessionId(lc.sid);
 }
 
@@ -914,10 +920,31 @@ int main(int argc, char **argv)
     for (int i = 0; i < nw; i++) pthread_join(W[i].tid, NULL);
 
     /* ---- single-threaded from here on ---- */
+    /* quiescent-point invariant of the shared session cache: every session of the run has been deleted, so each of the
+       SSL_SESSION_TABLE_SIZE entries must be available again.  Probe through the public API: that many TLS 1.2 sessions
+       held open at the same time must each be given a session id (an entry whose reference count leaked during the run
+       never returns to the pool, and one session fewer gets an id). */
+    int cap_got = 0, cap_done = 0;
+    {
+        enum { NP = SSL_SESSION_TABLE_SIZE };
+        static ep_t PC[NP], PS[NP]; static sslSessionId_t *psid[NP];
+        worker_t *w = &W[0];
+        for (int i = 0; i < NP; i++) {
+            sslSessOpts_t so, co; set_opts(&so, 12, 1, 0, 0); set_opts(&co, 12, 0, 0, 0);
+            psCipher16_t cs[1] = { 0x009c };
+            pumpctl_t pc; memset(&pc, 0, sizeof pc); pc.corrupt_round = pc.stop_round = -1;
+            if (matrixSslNewSessionId(&psid[i], NULL) < 0) break;
+            if (matrixSslNewServerSession(&PS[i].ssl, g_skeys, NULL, &so) < 0) { PS[i].ssl = NULL; break; }
+            if (matrixSslNewClientSession(&PC[i].ssl, g_ckeys, psid[i], cs, 1, cert_cb, NULL, NULL, NULL, &co) < 0) { PC[i].ssl = NULL; break; }
+            pump(w, &PC[i], &PS[i], &pc);
+            if (PC[i].hsDone && PS[i].hsDone && !PC[i].dead && !PS[i].dead) { cap_done++; if (PS[i].ssl->sessionIdLen > 0) cap_got++; }
+        }
+        for (int i = 0; i < NP; i++) { ep_free(&PC[i]); ep_free(&PS[i]); if (psid[i]) matrixSslDeleteSessionId(psid[i]); }
+    }
     long total = 0, api = 0, yl = 0, sl = 0;
-    char hdr[384];
-    int n = snprintf(hdr, sizeof hdr, "{\"t\":\"run\",\"seed\":%llu,\"threads\":%d,\"ops\":%d,\"have_ec\":%d,\"ncrl\":%d,\"rot_period\":%u,\"crl_period\":%u,\"empty\":%d,\"gap_hits\":%u,\"gap_served\":%u}\n",
-                     (unsigned long long) vf_seed, g_nthreads, g_nops, g_have_ec, g_ncrl, W[g_nthreads].period, W[g_nthreads + 1].period, g_empty, g_gap_hits, g_gap_served);
+    char hdr[512];
+    int n = snprintf(hdr, sizeof hdr, "{\"t\":\"run\",\"seed\":%llu,\"threads\":%d,\"ops\":%d,\"have_ec\":%d,\"ncrl\":%d,\"rot_period\":%u,\"crl_period\":%u,\"empty\":%d,\"gap_hits\":%u,\"gap_served\":%u,\"cache_size\":%d,\"cache_probe_done\":%d,\"cache_probe_ids\":%d}\n",
+                     (unsigned long long) vf_seed, g_nthreads, g_nops, g_have_ec, g_ncrl, W[g_nthreads].period, W[g_nthreads + 1].period, g_empty, g_gap_hits, g_gap_served, (int) SSL_SESSION_TABLE_SIZE, cap_done, cap_got);
     vf_write(hdr, n);
     for (int i = 0; i < nw; i++) {
         for (int k = 0; k < W[i].nops; k++) dump_op(&W[i].ops[k]);
